@@ -90,9 +90,14 @@ def d2_text(ctx):
         for c in walk(f):
             if isinstance(c, ast.Call) and call_name(c) == 'map' and c.args and unparse(c.args[0]) == 'float':
                 lp = m.parents.get(c)
-                while lp is not None and not isinstance(lp, ast.For):
+                while lp is not None and not isinstance(lp, (ast.For, ast.ListComp, ast.GeneratorExp)):
                     lp = m.parents.get(lp)
-                if lp is not None and lp not in parse_sites:
+                if isinstance(lp, (ast.ListComp, ast.GeneratorExp)):
+                    # a comprehension over the lines is the same loop written as an expression
+                    g0 = lp.generators[0]
+                    lp = ast.copy_location(ast.For(target=g0.target, iter=g0.iter, body=[ast.copy_location(ast.Expr(value=lp.elt), lp)], orelse=[]), lp)
+                    lp._synthetic_parent = m.parents.get(c)
+                if lp is not None and not any(getattr(x, 'lineno', None) == lp.lineno and unparse(x.iter) == unparse(lp.iter) for x in parse_sites):
                     parse_sites.append(lp)
         for s in parse_sites:
             n += 1
@@ -188,12 +193,25 @@ def d2_text(ctx):
             handles = {it.optional_vars.id for it in w.items if isinstance(it.optional_vars, ast.Name) and isinstance(it.context_expr, ast.Call) and call_name(it.context_expr) == 'open'}
             if not handles:
                 continue
+            raw_names = set()
             for st in statements(w):
                 if not isinstance(st, ast.Assign):
                     continue
                 v = st.value
                 if not any(isinstance(x, ast.Name) and x.id in handles for x in ast.walk(v)):
+                    # a list derived from the raw lines: slices and elements keep the evidence, a comprehension / map that rebuilds the
+                    # elements does not
+                    if any(isinstance(x, ast.Name) and x.id in raw_names for x in ast.walk(v)) and isinstance(v, (ast.ListComp, ast.Call)) \
+                            and not (isinstance(v, ast.ListComp) and isinstance(v.elt, ast.Name) and unparse(v.elt) == unparse(v.generators[0].target)) \
+                            and not (isinstance(v, ast.Call) and call_name(v) in ('len', 'enumerate', 'list', 'range')):
+                        if isinstance(v, ast.ListComp) and any(isinstance(x, ast.Name) and x.id in raw_names for x in ast.walk(v.generators[0].iter)) \
+                                and any(isinstance(x, ast.BinOp) and isinstance(x.op, ast.Add) for x in ast.walk(v.elt)):
+                            nsrc += 1
+                            ctx.check(rule, 'input/sfcf.py:%s#raw-lines[%s]' % (q, unparse(st.targets[0])), False, '',
+                                      'the lines read from the file are rewritten (`%s`) before the completeness tests see them: a trailing newline or the number of lines no longer proves that the last line was written completely' % unparse(v)[:80], m.loc(st))
                     continue
+                if isinstance(st.targets[0], ast.Name):
+                    raw_names.add(st.targets[0].id)
                 nsrc += 1
                 raw = False
                 if isinstance(v, ast.Call) and isinstance(v.func, ast.Attribute) and v.func.attr in ('readlines', 'readline', 'read') and isinstance(v.func.value, ast.Name) and v.func.value.id in handles:
